@@ -342,13 +342,12 @@ def resp_expected(status, es, ops, srvtag):
         vlen = sum(len(v) for v in vals) + (len(vals) - 1) * (len(k) + 4)
         if not k or not vlen:
             continue
-        alen += len(k) + vlen + 4
-        if alen > 65535:
-            return None
+        alen += len(k) + vlen + 4          # (internal headers count too: the size is checked up front)
         if lk == b"x-sendfile" or lk.startswith(b"x-lighttpd-"):
-            alen -= len(k) + vlen + 4
             continue
         fields += [(lk, v) for v in vals]
+    if alen > 65535:
+        return None
     if not tag.get(b"date"):
         fields.append((b"date", b"AUTO"))
     if srvtag and not tag.get(b"server"):
